@@ -181,10 +181,12 @@ def tlc_pairs(ctx, cfgs):
 
 
 def variants_for(cl, cr, seed, quick):
-    """Concretisations of a pair: one (seeded) in the quick tier, two in the thorough tier."""
+    """Concretisations of a pair: one (seeded) in the quick tier; in the thorough tier two for every other pair."""
     allv = querycorpus.variant_of([{"k": n[0], "v": n[2], "kids": []} for n in cl + cr], seed, False)
     h = (len(cl) * 5 + len(cr) * 3 + sum(len(n[2]) for n in cl + cr) + seed) % len(allv)
-    return [allv[h]] if quick else [allv[h], allv[(h + len(allv) - 1) % len(allv)]]
+    if quick or (len(cl) + 2 * len(cr) + seed) % 2:
+        return [allv[h]]
+    return [allv[h], allv[(h + len(allv) - 1) % len(allv)]]      # thorough: a second spelling for every other pair
 
 
 # --------------------------------------------------------------------------- C->S: random larger pairs
